@@ -44,6 +44,8 @@ func TestKvcBoundedRowBatch(t *testing.T) {
 		"select * where key between 'k05' and 'k05'",
 		"select * where int(value) between 6 and 6",
 		"select * where key ~= '^k0[1-3]$'",
+		"select key where value between key + '0' and key + '5' | key + '1' in (key + '2', 'zz')",
+		"select key, key + ':' + value as kv where key + value != ''",
 		"select substr(key, 0, 2) as g, strlen(value) as n, sum(n) as s, group_concat(n, ',') as c where int(value) != 3 group by g, n",
 		"select substr(value, 0, 1) as g, count(1) as c, sum(strlen(value)) as l, min(int(value)) as lo, max(int(value)) as hi, avg(int(value)) as a where key ^= 'k' group by g",
 	} {
